@@ -775,3 +775,58 @@ Proof. vm_compute. reflexivity. Qed.
 Example ex_flatten2_bad : flatten2 [[[1; 2]; [3]]; [[4]; [5; 6]]] [10; 11; 12] = Err EValue.
 Proof. vm_compute. reflexivity. Qed.
 End Examples.
+
+(* ------------------------------------------------------------------------------------------ *)
+(* split / drop by column NAME: the sample columns are exactly those whose name starts with "sample_" *)
+From Coq Require Import String.
+
+Lemma prefix_iff_app (s1 : string) : forall s2 : string,
+  String.prefix s1 s2 = true <-> exists t, s2 = (s1 ++ t)%string.
+Proof.
+  induction s1 as [|a s1 IH]; intros s2.
+  - split; [intros _; exists s2; reflexivity | intros _; destruct s2; reflexivity].
+  - destruct s2 as [|b s2].
+    + split; [intros H; discriminate H | intros [t Ht]; discriminate Ht].
+    + cbn [String.prefix String.append]. destruct (Ascii.ascii_dec a b) as [E|NE].
+      * subst b. rewrite IH. split; intros [t Ht]; exists t.
+        -- now rewrite Ht.
+        -- now inversion Ht.
+      * split; [intros H; discriminate H | intros [t Ht]; injection Ht as Hab Hs; exfalso; exact (NE (eq_sym Hab))].
+Qed.
+
+Theorem is_sample_name_iff (s : string) :
+  is_sample_name s = true <-> exists t, s = ("sample_" ++ t)%string.
+Proof. unfold is_sample_name. apply prefix_iff_app. Qed.
+
+Lemma filter_tag_snd {C} (p : string * C -> bool) (cols : list (string * C)) :
+  map snd (filter (fun c : bool * (string * C) => p (snd c)) (map (fun c => (is_sample_name (fst c), c)) cols))
+  = filter p cols.
+Proof.
+  induction cols as [|c cols IH]; [reflexivity|].
+  cbn [map filter snd]. destruct (p c); cbn [map snd]; now rewrite IH.
+Qed.
+
+Lemma filter_tag_fst {C} (g : bool -> bool) (cols : list (string * C)) :
+  map snd (filter (fun c : bool * (string * C) => g (fst c)) (map (fun c => (is_sample_name (fst c), c)) cols))
+  = filter (fun c => g (is_sample_name (fst c))) cols.
+Proof.
+  induction cols as [|c cols IH]; [reflexivity|].
+  cbn [map filter fst snd]. destruct (g (is_sample_name (fst c))); cbn [map snd]; now rewrite IH.
+Qed.
+
+Theorem split_named_spec {C} (cols : list (string * C)) :
+  split_named cols = (filter (fun c => negb (String.prefix "sample_" (fst c))) cols,
+                      filter (fun c => String.prefix "sample_" (fst c)) cols) /\
+  drop_named cols = filter (fun c => negb (String.prefix "sample_" (fst c))) cols.
+Proof.
+  unfold split_named, drop_named, drop_samples, split_samples, tag_cols. cbn [fst snd].
+  rewrite (filter_tag_fst negb cols), (filter_tag_fst (fun b => b) cols). split; reflexivity.
+Qed.
+
+(* starting with, not containing: the names the harness uses to tell the two rules apart *)
+Theorem sample_prefix_not_substring :
+  is_sample_name "sample_peak" = true /\ is_sample_name "sample_" = true /\
+  is_sample_name "n_sample_c3" = false /\ is_sample_name "resample_c1" = false /\
+  is_sample_name "samples_c2" = false /\ is_sample_name "Sample_c4" = false /\
+  is_sample_name "sample" = false /\ is_sample_name " sample_c0" = false.
+Proof. repeat split; reflexivity. Qed.
